@@ -824,6 +824,25 @@ def _one_dataset(chk, r, work, prop, programs, tier, obs, rec, d):
         return
     hv = synth.bgzip_tabix_vcf(synth.write_text(os.path.join(work, "haps.vcf"), out))
     prior = ["--prior-frequencies", "AFP"]
+    # the same haplotypes with user-supplied, very skewed prior frequencies: tiny but non-zero values (1e-9, 1e-12, 1e-300)
+    # and exact zeros; only an exact zero removes an allele from the samplers' state space
+    skew_lines, n_tiny = [], 0
+    for line in out.split("\n"):
+        f = line.split("\t")
+        if not line.startswith("#") and len(f) > 8 and f[4] != "." and "AFP=" in f[7]:
+            info = f[7].split(";")
+            k = next(i for i, t in enumerate(info) if t.startswith("AFP="))
+            vals = info[k][4:].split(",")
+            if len(vals) >= 2 and any(float(v) > 0 for v in vals):
+                top = max(range(len(vals)), key=lambda i: float(vals[i]))
+                rest = [i for i in range(1, len(vals)) if i != top] or [i for i in range(len(vals)) if i != top]
+                vals[r.choice(rest)] = ["1e-09", "1e-12", "0.000000001", "1e-30", "0"][n_tiny % 5]
+                n_tiny += 1
+                info[k] = "AFP=" + ",".join(vals)
+                f[7] = ";".join(info)
+                line = "\t".join(f)
+        skew_lines.append(line)
+    hv_skew = synth.bgzip_tabix_vcf(synth.write_text(os.path.join(work, "haps.skew.vcf"), "\n".join(skew_lines))) if n_tiny else None
 
     def call_argv(program, *extra):
         a = ["mchap", program, "--bam", *bams, "--ploidy", p_file, "--haplotypes", hv]
@@ -836,6 +855,10 @@ def _one_dataset(chk, r, work, prop, programs, tier, obs, rec, d):
            "call --report GP GL", options=nondefault_options(r, "call"))
         if tier == "thorough":
             go("call", call_argv("call"), truth, "call", options=nondefault_options(r, "call"))
+        if hv_skew:
+            a = call_argv("call", *prior)
+            a[a.index("--haplotypes") + 1] = hv_skew
+            go("call", a, truth, "call --prior-frequencies (tiny non-zero priors)", options=nondefault_options(r, "call"))
     if "call-exact" in programs:
         go("call-exact", call_argv("call-exact", *(prior if r.random() < 0.5 else [])), truth, "call-exact")
         go("call-exact", call_argv("call-exact", "--report", *r.choice([["GP"], ["GL"], ["GP", "GL"], ["GP", "GL", "AFP"]]),
@@ -865,6 +888,9 @@ def _one_dataset(chk, r, work, prop, programs, tier, obs, rec, d):
             r, [f"{s}\t{_fmt(err[s][0])}\t{_fmt(err[s][1])}" for s in S] + [f"{EXTRA_SAMPLE}\t0.5\t0.5"]))
         truth_p = {**truth, "temperatures": None,
                    "pedigree": {"parents": parents, "tau": tau, "lambda": lam, "error": err}}
-        go("call-pedigree", call_argv("call-pedigree", "--sample-parents", ped_f, "--gamete-ploidy", tau_f, "--gamete-ibd", lam_f,
-                                      "--gamete-error", err_f, "--report", "GL", *(prior if r.random() < 0.5 else [])),
-           truth_p, "call-pedigree --report GL", options=nondefault_options(r, "call-pedigree"))
+        a = call_argv("call-pedigree", "--sample-parents", ped_f, "--gamete-ploidy", tau_f, "--gamete-ibd", lam_f,
+                      "--gamete-error", err_f, "--report", "GL", *(prior if r.random() < 0.5 else []))
+        if hv_skew and "--prior-frequencies" in a:
+            a[a.index("--haplotypes") + 1] = hv_skew
+            chk.count("plumbing:call-pedigree:tiny-non-zero-priors")
+        go("call-pedigree", a, truth_p, "call-pedigree --report GL", options=nondefault_options(r, "call-pedigree"))
